@@ -29,6 +29,12 @@ extern "C" __attribute__((used, noinline)) const char* __asan_default_options() 
 
 #ifndef SIM_THREADS
 extern "C" void sonic_verif_sim_point(int) {}  // scheduler yield points are only used by the thread harness
+// tight-growth buggify switch read by the hook in internal::Stack::Grow
+namespace sim { int g_tight_growth = 0; uint64_t g_tight_hits = 0; }
+extern "C" int sonic_verif_tight_growth() {
+  if (sim::g_tight_growth) sim::g_tight_hits++;
+  return sim::g_tight_growth;
+}
 #endif
 
 static uint64_t* g_status = nullptr;   // [0]=current run, [1]=runs done, [2]=current op (best effort)
